@@ -40,7 +40,7 @@ RULE = (
     "sock_timeout, api408, api_other (400/404/409/429/500/503), transport_other (SerializationError/TransportError/SniffingError); "
     "afterwards the delegate succeeds) x parameters (retries 0-5 or omitted, retry-until-success omitted/true/false, retry-wait-period "
     "omitted/0/0.25/0.5/2, retry-on-timeout and retry-on-error omitted/true/false, constructor default of retry-until-success) x a "
-    "per-attempt service time from {0, 1/1024, 1/4} s; 1 in 4 generated cases invokes the same wrapper 2-3 times with the same params dict object (script replayed). Exhaustive sub-domain: every sequence of length 0-4 over the 9 classes (7381) x "
+    "per-attempt service time from {0, 1/1024, 1/4} s; 1 in 4 generated cases invokes the same wrapper 2-3 times with the same params dict object (script replayed), another quarter runs two overlapping invocations (two clients of one worker) through the same wrapper. Exhaustive sub-domain: every sequence of length 0-4 over the 9 classes (7381) x "
     "parameter grid (quick: the 22 behaviourally distinct (attempt cap, retry-on-error, retry-on-timeout) combinations with rotating "
     "wait period / omitted-or-explicit spelling, plus the empty parameter set and constructor-default-overridden; thorough: the full 1080-point grid incl. the constructor default). Non-trivial = the real code made >= 2 attempts "
     "and the attempted outcomes belong to >= 2 different classes. Distinct = distinct canonical JSON."
@@ -275,6 +275,9 @@ def _same(a, b):
 
 def run_case(case, obs):
     loop = _loop()
+    if case.get("concurrent"):
+        _run_concurrent(case, obs, loop)
+        return
     outcomes = case["outcomes"]
     params = dict(case["params"])
     delegate = _Delegate(outcomes, case.get("svc", []), loop)
@@ -298,23 +301,86 @@ def run_case(case, obs):
             break
 
 
-def _one_invocation(case, obs, loop, retrier, delegate, es, params):
-    outcomes = case["outcomes"]
-    t_begin = loop.time()
-    returned = raised = None
-    runaway = False
-    try:
-        returned = ("value", loop.run_until_complete(retrier(es, params)))
-    except _Runaway:
-        runaway = True
-    except core.HarnessError:
-        raise
-    except BaseException as e:  # pylint: disable=broad-except
+def _outcome_of(awaitable_result, delegate):
+    """(returned, raised, runaway) of one invocation from what gather(return_exceptions=True) / run_until_complete delivered"""
+    if isinstance(awaitable_result, _Runaway):
+        return None, None, True
+    if isinstance(awaitable_result, BaseException):
+        e = awaitable_result
+        if isinstance(e, core.HarnessError):
+            raise e
         if not any(c[2] == "raise" and c[3] is e for c in delegate.calls) and not isinstance(e, (elasticsearch.ApiError, elasticsearch.TransportError, OSError)):
-            raise  # not something the delegate produced: a crash inside Retry (classified by the framework)
-        raised = e
+            raise e  # not something the delegate produced: a crash inside Retry (classified by the framework)
+        return None, e, False
+    return ("value", awaitable_result), None, False
 
-    calls = delegate.calls
+
+class _Mux:
+    """one delegate object (as in Rally: one runner per operation type) serving two overlapping invocations; params["_inv"] tells them apart"""
+
+    def __init__(self, views):
+        self.views = views
+
+    def __repr__(self):
+        return "scripted-delegate"
+
+    async def __aenter__(self):
+        return self
+
+    async def __aexit__(self, exc_type, exc_val, exc_tb):
+        return False
+
+    async def __call__(self, es, params):
+        return await self.views[params["_inv"]](es, params)
+
+
+def _run_concurrent(case, obs, loop):
+    """two clients of one worker execute the operation at overlapping times through the same Retry object; each is judged on its own"""
+    es = object()
+    con = case["concurrent"]
+    cases = {"A": case, "B": dict(case, outcomes=con["outcomes"], svc=con["svc"])}
+    views, params = {}, {}
+    for k, c in cases.items():
+        params[k] = dict(c["params"], _inv=k)
+        views[k] = _Delegate(c["outcomes"], c.get("svc", []), loop)
+        views[k].params_obj = params[k]
+    mux = _Mux(views)
+    retrier = runner.Retry(mux, retry_until_success=True) if case.get("ctor_rus") else runner.Retry(mux)
+    begins = {}
+
+    async def invoke(k, delay):
+        if delay:
+            await asyncio.sleep(delay)
+        begins[k] = loop.time()
+        return await retrier(es, params[k])
+
+    async def both():
+        return await asyncio.gather(invoke("A", 0), invoke("B", SERVICE[con["start"] % len(SERVICE)] + con["extra"]), return_exceptions=True)
+
+    results = loop.run_until_complete(both())
+    for k, res in zip("AB", results):
+        before = len(obs.violations)
+        returned, raised, runaway = _outcome_of(res, views[k])
+        _judge(cases[k], obs, views[k].calls, es, begins[k], returned, raised, runaway)
+        if len(obs.violations) > before:
+            obs.violations[before:] = [(f"{sig}@overlapping-invocation", msg) for sig, msg in obs.violations[before:]]
+    a, b = views["A"].calls, views["B"].calls
+    if a and b and a[0][0] < b[-1][1] and b[0][0] < a[-1][1] and (len(a) >= 2 or len(b) >= 2):
+        obs.cls("overlapping-invocations-with-retries")
+
+
+def _one_invocation(case, obs, loop, retrier, delegate, es, params):
+    t_begin = loop.time()
+    try:
+        res = loop.run_until_complete(retrier(es, params))
+    except BaseException as e:  # pylint: disable=broad-except
+        res = e
+    returned, raised, runaway = _outcome_of(res, delegate)
+    _judge(case, obs, delegate.calls, es, t_begin, returned, raised, runaway)
+
+
+def _judge(case, obs, calls, es, t_begin, returned, raised, runaway):
+    outcomes = case["outcomes"]
     n = len(calls)
     m, reason = _model(case)
     cap, on_error, on_timeout, wait = _settings(case)
@@ -368,7 +434,7 @@ def _one_invocation(case, obs, loop, retrier, delegate, es, params):
 
     # ---- every attempt is the same operation
     for i, c in enumerate(calls):
-        obs.check(c[4] is es and c[5] == case["params"], "call-args", f"attempt {i + 1} was called with es/params different from the operation's: {c[5]}")
+        obs.check(c[4] is es and {k: v for k, v in c[5].items() if k != "_inv"} == case["params"], "call-args", f"attempt {i + 1} was called with es/params different from the operation's: {c[5]}")
 
     # ---- exactly one wait period between consecutive attempts (only gaps the model agrees to)
     for i in range(min(n, m) - 1):
@@ -447,6 +513,15 @@ def _case(draw):
     case = {"outcomes": outcomes, "params": params, "ctor_rus": bool(ctor_rus), "svc": svc}
     if draw(st.integers(0, 3)) == 0:
         case["invocations"] = draw(st.sampled_from([2, 2, 3]))
+    elif draw(st.integers(0, 3)) == 0:
+        # a second client of the same worker runs the operation through the same Retry object while the first is still at it
+        nb = draw(st.integers(0, 6))
+        case["concurrent"] = {
+            "outcomes": draw(st.lists(_outcome(st.sampled_from(_RETRYABLE_HEAVY)), min_size=nb, max_size=nb)),
+            "svc": draw(st.lists(st.sampled_from([0, 1, 2]), min_size=nb, max_size=nb)),
+            "start": draw(st.integers(0, 2)), "extra": draw(st.sampled_from([0, 1 / 2048, 0.125, 0.375])),
+        }
+        case["svc"] = [max(1, v) for v in case["svc"]]  # attempts take time, so that the two invocations really overlap
     return case
 
 
